@@ -586,7 +586,11 @@ func jsonhStrNode(s string) *jsonhNode { return &jsonhNode{kind: 's', text: s} }
 
 func jsonhLeafNode(l jsonhLeaf) *jsonhNode {
 	switch l.kind {
-	case 's', 'r', 'a', 'E':
+	case 'E':
+		// "a value that cannot be encoded shows up as an error string": the property fixes no wording, so the
+		// direct oracle accepts any JSON string here (the exact text is compared by the model stream only)
+		return &jsonhNode{kind: '?'}
+	case 's', 'r', 'a':
 		return jsonhStrNode(jsonhSan(l.payload))
 	case 'n':
 		return &jsonhNode{kind: 'n', text: l.payload}
